@@ -30,7 +30,7 @@ LEVEL = "model_checking"
 
 FD = world.TTY_FD
 PROBE_NAMES = ("probe_raw_body", "probe_nested_body", "probe_query_body", "probe_name_body",
-               "probe_colors_body", "probe_rw_body")
+               "probe_colors_body", "probe_rw_body", "probe_cellsize_body", "probe_kitty_body", "_query_support")
 DA1 = b"\x1b[c"
 DA1_REPLY = b"\x1b[?62;4c"
 
@@ -64,7 +64,9 @@ class CheckedTty(world.VTty):
 
     def _enter(self, kind, detail=None):
         me = self._who()
-        if self.session is not None and me is not None and me is not self.session:
+        # (TIOCGWINSZ neither reads, writes nor reconfigures the terminal: get_cell_size() asks for the
+        # window size outside the terminal lock, which interferes with nobody's query)
+        if self.session is not None and me is not None and me is not self.session and kind != "ioctl":
             if len(self.intrusions) < 4:
                 self.intrusions.append((self.session.name, me.name, kind))
         return super()._enter(kind, detail)
@@ -117,7 +119,8 @@ class CheckedTty(world.VTty):
 
 def make_tty(chooser=None, late=False):
     cfg = dict(world.IDENTITIES["kitty"])
-    resp = world.Responder(fg=b"rgb:ffff/ffff/ffff", bg=b"rgb:0000/0000/0000", **cfg)
+    resp = world.Responder(fg=b"rgb:ffff/ffff/ffff", bg=b"rgb:0000/0000/0000", cell_px=(7, 3),
+                           text_area_px=(35, 30), **cfg)
     tty = CheckedTty(10, 5, 0, 0, responder=resp, chooser=chooser, allow_silence=late)
     tty.late = late
     tty.log_calls = False
@@ -212,11 +215,24 @@ def probes(mod):
         r = mod.get_fg_bg_colors.__wrapped__(hex=True)
         return ("colors", r == ("#ffffff", "#000000"), r)
 
+    def probe_cellsize_body(tag):
+        # ioctl reports no pixels: the real XTWINOPS + DA1 query; all three replies are this caller's
+        r = mod.get_cell_size()
+        return ("cellsize", r is not None and tuple(r) == (3, 7), r)
+
+    def probe_kitty_body(tag):
+        # rarely used entry point with its own synchronization: graphics support query + DA1, read in two steps
+        K = world.load().image.KittyImage
+        r = K.is_supported()
+        return ("kitty", r is True, r)
+
     p = dict(raw=mod.lock_tty(probe_raw_body), rw=mod.lock_tty(probe_rw_body),
              query=mod.lock_tty(probe_query_body), nested=mod.lock_tty(probe_nested_body),
              name=probe_name_body, colors=probe_colors_body)
     # the same function object handed to lock_tty a second time (two components synchronizing the same
     # helper), and an already synchronized wrapper handed to it again: both results must be synchronized
+    p["cellsize"] = probe_cellsize_body
+    p["kitty"] = probe_kitty_body
     p["raw2"] = mod.lock_tty(probe_raw_body)
     p["raw_ww"] = mod.lock_tty(p["raw"])
     _PROBES[mod] = p
@@ -248,6 +264,8 @@ def build(spec, chooser):
     global S
     tty = make_tty(chooser if spec.get("replies") else None, late=bool(spec.get("late")))
     S = ExecState(tty)
+    K = world.load().image.KittyImage
+    K._supported = None         # support undetermined at the start of every execution
     s = sched.Scheduler(chooser, trace_names=PROBE_NAMES, max_steps=50000)
     procs = spec.get("procs", {})
     model = sched.ProcModel(s, tty, 1 + len(procs))
@@ -400,6 +418,11 @@ def harnesses(tier):
     # synchronized functions obtained by decorating one function object twice / a wrapper again
     add("threads-redecorated", [[P("raw")], [P("raw2")], [P("raw_ww")]], bound=(1, 2))
     add("start-redecorated", [[["start", 1]], [P("raw2")]], {"1": dict(prog=[P("raw2")])}, bound=(1, 2))
+    # get_cell_size's own query (three replies) next to another caller, replies slow and atomic
+    add("threads-cell-size-replies", [[P("cellsize")], [P("name")]], replies=True, bound=(1, 2))
+    # KittyImage.is_supported() (its own lock block, reply read in two steps) after the lock migration
+    add("start-then-kitty-support", [[["start", 1], P("kitty")], [P("raw")]], {"1": dict(prog=[P("raw")])},
+        bound=(1, 2))
     # first start (thread lock -> process lock migration) racing with probes
     add("start-race", [[P("raw")], [P("raw")], [["start", 1]]], {"1": one}, bound=(1, 2))
     add("start-then-probe", [[["start", 1], P("raw")], [P("raw")]], {"1": one})
